@@ -343,7 +343,12 @@ func (c *Ctx) rulesR4space() {
 		return
 	}
 	// the lists: every slice-typed value that is sliced or indexed with a non-constant position
-	loops := rangeLoops(f)
+	var loops []rloopInfo
+	var spBlocks []*ssa.BasicBlock
+	for _, hf := range c.hostedFns(f) {
+		loops = append(loops, rangeLoops(hf)...)
+		spBlocks = append(spBlocks, hf.Blocks...)
+	}
 	var sameList func(a, b ssa.Value) bool
 	sameList = func(a, b ssa.Value) bool {
 		if a == b {
@@ -424,7 +429,7 @@ func (c *Ctx) rulesR4space() {
 		return false, "position " + render(v)
 	}
 	n := 0
-	for _, b := range f.Blocks {
+	for _, b := range spBlocks {
 		for _, ins := range b.Instrs {
 			switch x := ins.(type) {
 			case *ssa.Slice:
